@@ -355,7 +355,7 @@ func panicSites(x *Ctx, fns []*ssa.Function, R map[*ssa.Function]bool) {
 				return false
 			}
 			state[c] = 1
-			ok := hasDeferredRecover(c) || inQPClosure(c)
+			ok := hasDeferredRecover(c) || inQPClosure(c) || boundHandedToQP(x, c)
 			if !ok {
 				callers := x.P.CallersOf(c)
 				if c.Parent() != nil {
@@ -383,6 +383,56 @@ func panicSites(x *Ctx, fns []*ssa.Function, R map[*ssa.Function]bool) {
 		}
 		x.C.Obl("C09.P1", "recovered:anyAssemble", x.pos(f), "anyAssemble is only called under literal.Any's deferred recover or inside qp closures", bad == "", bad)
 	}
+}
+
+// boundHandedToQP: c is a method whose every use as a value (a bound method value) is an argument of a qp builder:
+// the method then runs inside the builder's recover like the function literal it replaced.
+func boundHandedToQP(x *Ctx, c *ssa.Function) bool {
+	if c.Signature.Recv() == nil {
+		return false
+	}
+	uses, all := 0, true
+	for _, g := range x.P.ModuleFuncs() {
+		for _, b := range g.Blocks {
+			for _, in := range b.Instrs {
+				mc, ok := in.(*ssa.MakeClosure)
+				if !ok {
+					continue
+				}
+				w, ok := mc.Fn.(*ssa.Function)
+				if !ok || !strings.HasPrefix(w.Synthetic, "bound method wrapper") || w.Object() != c.Object() {
+					continue
+				}
+				uses++
+				for _, r := range *mc.Referrers() {
+					var v ssa.Value = mc
+					if ct, isCT := r.(*ssa.ChangeType); isCT {
+						v = ct
+						for _, r2 := range *ct.Referrers() {
+							if call, isCall := r2.(ssa.CallInstruction); !isCall || paths.StaticCallee(call) == nil || !strings.Contains(paths.StaticCallee(call).String(), "go-ipld-prime/fluent/qp.") {
+								all = false
+							}
+						}
+						continue
+					}
+					_ = v
+					if _, isDbg := r.(*ssa.DebugRef); isDbg {
+						continue
+					}
+					if call, isCall := r.(ssa.CallInstruction); !isCall || paths.StaticCallee(call) == nil || !strings.Contains(paths.StaticCallee(call).String(), "go-ipld-prime/fluent/qp.") {
+						all = false
+					}
+				}
+			}
+		}
+	}
+	// and it is not called directly from anywhere unprotected: direct callers are examined by the caller of this function
+	for _, e := range x.P.CallersOf(c) {
+		if e.Caller.Func != nil && !strings.HasPrefix(e.Caller.Func.Synthetic, "bound method wrapper") && e.Site != nil && e.Site.Common().StaticCallee() == c {
+			return false
+		}
+	}
+	return uses > 0 && all
 }
 
 func hasDeferredRecover(f *ssa.Function) bool {
